@@ -192,6 +192,19 @@ theorem scaleAux_dims (c : K) (which i : Nat) (fs : List (Site K)) :
         have : chainOk (B2 :: fs2) = chainOk (B :: fs') := h1
         rw [this]
 
+theorem scaleAux_get (c : K) (which i : Nat) (fs : List (Site K)) (k : Nat) :
+    (scaleAux c which i fs)[k]? = (fs[k]?).map (fun A => if i + k = which then scaleSite c A else A) := by
+  induction fs generalizing i k with
+  | nil => simp [scaleAux]
+  | cons A fs ih =>
+    cases k with
+    | zero => simp [scaleAux]
+    | succ k =>
+      simp only [scaleAux, List.getElem?_cons_succ, ih (i + 1) k]
+      congr 1; funext B
+      have : i + 1 + k = i + (k + 1) := by omega
+      rw [this]
+
 /-! ### product (bond dimension 1) chains -/
 
 theorem ampVecF_basis (dim : Nat) (lv s : List Nat) (v : Nat → K) :
